@@ -501,3 +501,73 @@ Proof.
   intros p r t n r1 l1 Hrep Hb E. pose proof (sbytes_le n).
   exact (rtu_represents_step p r t n (run_fuel r n) r1 l1 Hrep Hb ltac:(unfold run_fuel; lia) E).
 Qed.
+
+(* ================================================================================================
+   The RTU server across port re-opens (one reader for the life of the server)
+   ================================================================================================ *)
+Lemma gres_is_reopen p : forall G F s fi,
+  gres (fun F s fi => rref F (role_of p) s fi) (fun F s => rref_after F (role_of p) s) G F s fi = rref_reopen G F (role_of p) s fi.
+Proof.
+  induction G as [|G IH]; intros F s fi; [reflexivity|]. cbn [gres rref_reopen].
+  destruct (rref F (role_of p) s fi) as [fs e]. destruct e; try reflexivity. now rewrite IH.
+Qed.
+
+(* the reader polled again after framing errors (what the server does across re-opens) delivers exactly what
+   the Spec prescribes: session after session, each from a clean parser on what is left of the stream *)
+Theorem rtu_reopen : forall p chunks fi, Forall bytes chunks ->
+  run_session (kind_of p) true chunks fi =
+  ref_rtu_reopen (role_of p) (fst (sched_stream chunks fi)) (snd (sched_stream chunks fi)).
+Proof.
+  intros p chunks fi Hb. rewrite sched_stream_eq. cbn [fst snd]. unfold run_session, ref_rtu_reopen.
+  pose proof (sbytes_le chunks) as Hs.
+  replace (reader_new (kind_of p)) with (rd rstate (PRtu p) Start buf_new) by (destruct p; reflexivity).
+  set (G := run_fuel (rd rstate (PRtu p) Start buf_new) chunks).
+  assert (HG : G = length (concat chunks) + 2) by reflexivity.
+  rewrite (rtu_run_resume_ref p G buf_new chunks fi (S (length (sbytes chunks))) wf_new bytes_nil Hb)
+    by (cbn [buf_new b_pend app]; lia).
+  cbn [buf_new b_pend app].
+  rewrite (rtu_gres_fuel p G (S (length (sbytes chunks)))) by lia.
+  apply gres_is_reopen.
+Qed.
+
+(* what is left after a framing error is a suffix of the stream *)
+Lemma body_after_suffix k d plen t : (forall t', exists pre, t' = pre ++ k t') -> exists pre, t = pre ++ rtu_body_after k d plen t.
+Proof.
+  intros Hk. unfold rtu_body_after. destruct (Nat.ltb 253 plen); [exists []; reflexivity|].
+  destruct (Nat.ltb _ _); [exists t; now rewrite app_nil_r|].
+  destruct (N.eqb _ _).
+  - destruct (Hk (skipn (plen + 2) t)) as [pre Hp]. exists (firstn (plen + 2) t ++ pre). rewrite <- app_assoc, <- Hp. now rewrite firstn_skipn.
+  - exists (firstn (plen + 2) t). now rewrite firstn_skipn.
+Qed.
+Lemma rref_after_suffix r : forall F s, exists pre, s = pre ++ rref_after F r s.
+Proof.
+  induction F as [|F IH]; intros s; [exists s; cbn; now rewrite app_nil_r|].
+  destruct s as [|a [|fcv rest]]; [exists []; reflexivity|exists [a]; reflexivity|]. cbn [rref_after].
+  assert (Hb : forall plen, exists pre, a :: fcv :: rest = pre ++ rtu_body_after (rref_after F r) a plen (fcv :: rest)).
+  { intros plen. destruct (body_after_suffix (rref_after F r) a plen (fcv :: rest) (IH)) as [pre Hp]. exists (a :: pre). cbn [app]. now rewrite <- Hp. }
+  destruct (length_rule r fcv); [apply Hb| |exists [a]; reflexivity].
+  destruct (Nat.ltb _ _); [exists (a :: fcv :: rest); now rewrite app_nil_r|apply Hb].
+Qed.
+
+(* C06_gate across re-opens: whatever reaches the handler sits in the received stream with ITS OWN address and the correct CRC *)
+Lemma reopen_gate p : forall G F s fi f, bytes s -> In (IFrame f) (fst (rref_reopen G F (role_of p) s fi)) -> carries s f.
+Proof.
+  induction G as [|G IH]; intros F s fi f Hb; [intros []|]. cbn [rref_reopen].
+  pose proof (rref_gate p F s fi Hb) as Hg. destruct (rref F (role_of p) s fi) as [fs e]. cbn [fst] in Hg.
+  assert (Hfs : In (IFrame f) (map IFrame fs) -> carries s f).
+  { rewrite in_map_iff. intros (f' & Hf & Hin). inversion Hf; subst. now apply Hg. }
+  destruct e; try (cbn [fst]; exact Hfs).
+  destruct (rref_reopen G F (role_of p) (rref_after F (role_of p) s) fi) as [l e'] eqn:Er. cbn [fst].
+  rewrite in_app_iff. intros [H|H]; [now apply Hfs|]. destruct H as [H|H]; [discriminate|].
+  destruct (rref_after_suffix (role_of p) F s) as [pre Hp].
+  assert (Hb' : bytes (rref_after F (role_of p) s)) by (rewrite Hp in Hb; unfold bytes in *; apply Forall_app in Hb; tauto).
+  specialize (IH F (rref_after F (role_of p) s) fi f Hb'). rewrite Er in IH. destruct (IH H) as (pre' & post & Hc).
+  exists (pre ++ pre'), post. rewrite Hp at 1. rewrite Hc, <- app_assoc. reflexivity.
+Qed.
+
+Theorem rtu_reopen_gate : forall p chunks fi f, Forall bytes chunks ->
+  In (IFrame f) (fst (run_session (kind_of p) true chunks fi)) -> carries (fst (sched_stream chunks fi)) f.
+Proof.
+  intros p chunks fi f Hb. rewrite (rtu_reopen p chunks fi Hb), sched_stream_eq. cbn [fst snd]. unfold ref_rtu_reopen.
+  apply reopen_gate. clear -Hb. induction Hb as [|c n Hc Hn IH]; [constructor|]. destruct c; [constructor|]. cbn [sbytes]. now apply bytes_app.
+Qed.
